@@ -853,3 +853,50 @@ func genCompound(r *rand.Rand, i int) CompoundPacket {
 	}
 	return c
 }
+
+// ---------------------------------------------------------------------------------------------------
+// NACK helpers (C12)
+
+// genNackRange: any pair (IDs near the 65535->0 wrap favoured, sparse and dense bitmaps) and every early-stop
+// position 0..17 of the callback (17: never stops).
+func genNackRange(r *rand.Rand, i int) (NackPair, int) {
+	p := NackPair{PacketID: govcU16(r), LostPackets: PacketBitmap(govcU16(r))}
+	switch r.Intn(4) {
+	case 0:
+		p.PacketID = uint16(65520 + r.Intn(16))
+	case 1:
+		p.LostPackets = PacketBitmap(uint16(1)<<uint(r.Intn(16)) | uint16(1)<<uint(r.Intn(16)))
+	}
+	return p, i % 18
+}
+
+// genNackSeqs: lists of 0..40 sequence numbers: ascending runs with gaps around 16/17, duplicates, unsorted
+// input, runs across the wrap.
+func genNackSeqs(r *rand.Rand, i int) []uint16 {
+	n := r.Intn(41 * govcScale)
+	var out []uint16
+	cur := govcU16(r)
+	if r.Intn(3) == 0 {
+		cur = uint16(65500 + r.Intn(36))
+	}
+	for j := 0; j < n; j++ {
+		switch r.Intn(8) {
+		case 0:
+			cur += uint16(15 + r.Intn(4)) // gaps of 15..18 around the bitmap width
+		case 1:
+			// duplicate
+		case 2:
+			cur += uint16(r.Intn(200))
+		case 3:
+			if r.Intn(4) == 0 {
+				cur -= uint16(r.Intn(20)) // unsorted input
+			} else {
+				cur++
+			}
+		default:
+			cur += uint16(1 + r.Intn(3))
+		}
+		out = append(out, cur)
+	}
+	return out
+}
